@@ -19,6 +19,10 @@ from harness.armi_env import armi_ready
 MODDIR = os.path.join(common.SPEC, "thermal")
 HEIGHT = 2.0            # block height: volume = area * height, mass per unit height = getMass() / height
 RTOL = 1e-9             # a handful of double multiplications / divisions per observable
+RTOL_F32 = 1.2e-7       # p.pinNDens is a float32 array multiplied in place: per setTemperature call one rounding of the factor
+                        # to float32 and one of the product (2 x 2^-24); the bound used is RTOL_F32 x (calls so far + 2)
+DETAILED0 = (0.011, 0.0023, 4.5e-5)                         # input: a detailed number density vector
+PIN0 = ((0.021, 0.0042), (0.019, 0.0038), (0.02, 0.004))    # input: pin-wise number densities (pins x nuclides)
 ABS = ("e1", "e2", "n")
 FRACS = {3: (0.12, 0.5, 0.88), 4: (0.12, 0.37, 0.63, 0.88)}
 ACTIONS = ("ATemp", "ARamp", "ADim", "ALink", "ACopy")
@@ -137,7 +141,9 @@ class Adapter:
         from armi.utils import densityTools
 
         self.b = binding
-        self.blocks, self.dt, self.composites = blocks, densityTools, composites
+        import numpy
+
+        self.blocks, self.dt, self.composites, self.np = blocks, densityTools, composites, numpy
 
     # -- build ---------------------------------------------------------------------------------------------
     def build(self, root):
@@ -155,9 +161,16 @@ class Adapter:
                 # materials without a reference density build empty / zero compositions: give them one (an input)
                 c.p.numberDensities = {"FE56": 0.02, "O16": 0.01}
                 nd = c.getNumberDensities()
+            a = root["aux"][i]
+            a = {"d": a[0], "p": a[1]} if isinstance(a, (list, tuple)) else a
+            if a["d"]:
+                c.p.detailedNDens = self.np.array(DETAILED0, dtype=float)
+            if a["p"]:
+                c.p.pinNDens = self.np.array(PIN0, dtype=self.np.float32)
             w.comp.append(c)
             w.nd0.append(dict(nd))
         w.src = 0
+        w.calls = [0, 0]        # setTemperature calls made on each component (a duplicate inherits its source's arrays)
         return w
 
     def ramp(self, comp, target, k):
@@ -188,13 +201,15 @@ class Adapter:
         s = self.b.side(a["c"] - 1, w.src)
         if n == "SetTemperature":
             w.comp[a["c"] - 1].setTemperature(s.temps[a["t"] - 1])
+            w.calls[a["c"] - 1] += 1
         elif n == "Ramp":
-            self.ramp(w.comp[a["c"] - 1], s.temps[a["t"] - 1], a["k"])
+            w.calls[a["c"] - 1] += self.ramp(w.comp[a["c"] - 1], s.temps[a["t"] - 1], a["k"])
         elif n == "Copy":
             new = copy.copy(w.comp[a["c"] - 1])             # Component.__copy__
             self.composites.Composite.add(w.block, new)     # armi puts the duplicate into the same block
             w.comp.append(new)
             w.nd0.append(dict(w.nd0[a["c"] - 1]))
+            w.calls.append(w.calls[a["c"] - 1])
             w.src = a["c"]
         elif n == "SetDim":
             try:
@@ -222,7 +237,7 @@ class Adapter:
         return float(v) if v is not None else None
 
     def project(self, w):
-        out = {"err": w.err, "src": w.src, "nd0": w.nd0, "c": []}
+        out = {"err": w.err, "src": w.src, "nd0": w.nd0, "calls": list(w.calls), "c": []}
         for i, c in enumerate(w.comp):
             s = self.b.side(i, w.src)
             t = c.temperatureInC
@@ -236,6 +251,8 @@ class Adapter:
             o["mph"] = mass if isinstance(mass, str) else mass / HEIGHT
             nd = c.getNumberDensities()
             o["nd"] = {k: float(v) for k, v in sorted(nd.items())}
+            o["detailedNDens"] = None if c.p.detailedNDens is None else [float(x) for x in c.p.detailedNDens]
+            o["pinNDens32"] = None if c.p.pinNDens is None else [[float(x) for x in row] for row in c.p.pinNDens]
             if isinstance(vol, str) or isinstance(area, str) or isinstance(mass, str):
                 o["volIsAreaTimesHeight"] = o["massIsDensityTimesVolume"] = "RuntimeError" if (
                     vol == area == mass) else [vol, area, mass]
@@ -281,6 +298,9 @@ class Adapter:
             e["tef"] = so["tef"]["r"] if so["tef"]["r"] != "ok" else evalmono(so["tef"]["e"], self.b.fac)
             ndf = evalmono(so["nd"], self.b.fac)
             e["nd"] = {k: v * ndf for k, v in sorted(nd0[i].items())}
+            anf = evalmono(so["an"], self.b.fac)
+            e["detailedNDens"] = [x * anf for x in DETAILED0] if so["aux"]["d"] else None
+            e["pinNDens32"] = [[float(self.np.float32(x)) * anf for x in row] for row in PIN0] if so["aux"]["p"] else None
             e["hot"] = {r: self._val(so["hot"][a], s, r, src) for r, a in s.dims.items()}
             e["cold"] = {r: self._val(so["cold"][a], s, r, src) for r, a in s.dims.items()}
             e["at"] = [{r: self._val(so["at"][t][a], s, r, src) for r, a in s.dims.items()} for t in range(self.b.nt)]
@@ -312,7 +332,7 @@ class Adapter:
         beh = []
         try:
             got = self.project(w)
-            d = rp.diff(self.expected(obs_of(None), "", got), got, rtol=RTOL)
+            d = compare(self.expected(obs_of(None), "", got), got)
             if d:
                 return self._div(0, d, root, beh, {"n": "Init"}, None, got)
             for k, (act, err, key) in enumerate(steps):
@@ -320,7 +340,7 @@ class Adapter:
                 self.apply(w, act)
                 got = self.project(w)
                 exp = self.expected(obs_of(key), err, got)
-                d = rp.diff(exp, got, rtol=RTOL)
+                d = compare(exp, got)
                 if d:
                     return self._div(k + 1, d, root, beh, act, exp, got)
         except Exception as ex:  # noqa: BLE001  a legal call or query of armi that raises is a verdict, not a harness failure
@@ -333,6 +353,20 @@ class Adapter:
     def _div(self, k, d, root, beh, act, exp, got):
         return {"diverged_at": k, "first_difference": d, "root": root, "behaviour": list(beh), "action": act,
                 "expected": exp, "observed": got, "binding": self.b.describe()}
+
+
+def compare(exp, got):
+    """First difference; everything at RTOL except the float32 pin-wise densities."""
+    d = rp.diff(exp, got, rtol=RTOL)
+    if d and "pinNDens32" in d.split(":")[0]:
+        lite = {"err": exp["err"], "c": [{k: v for k, v in c.items() if k != "pinNDens32"} for c in exp["c"]]}
+        d = rp.diff(lite, got, rtol=RTOL)
+        if not d:
+            for i, c in enumerate(exp["c"]):
+                d = rp.diff({"pinNDens32": c["pinNDens32"]}, got["c"][i], ".c[%d]" % i, rtol=RTOL_F32 * (got["calls"][i] + 2))
+                if d:
+                    break
+    return d
 
 
 def _close(a, b):
@@ -502,6 +536,8 @@ def key_of(div):
         if solid:
             return "replay:refused-read:%s" % solid[0]
     side = b["c%d" % (ci + 1)]
+    if head in ("detailedNDens", "pinNDens32"):
+        return "replay:%s:%s" % (an, head)      # an auxiliary density vector not scaled like numberDensities
     who = side["material"] if head in ("nd", "tef", "exception", "T") else side["shape"]
     return "replay:%s:%s:%s" % (an, who, head)
 
@@ -576,7 +612,8 @@ def record_traces(binds, nev, rng):
     nt = 4
     for bi, b in enumerate(binds):
         ad = Adapter(b)
-        root = {"kind": b.kinds, "Tin": [rng.randint(1, nt), rng.randint(1, nt)], "T0": [rng.randint(1, nt), rng.randint(1, nt)]}
+        root = {"kind": b.kinds, "Tin": [rng.randint(1, nt), rng.randint(1, nt)], "T0": [rng.randint(1, nt), rng.randint(1, nt)],
+                "aux": [[rng.random() < 0.5, rng.random() < 0.5] for _ in range(2)]}
         w = ad.build(root)
         tid = "t%d" % bi
         obs = []
@@ -669,7 +706,7 @@ def check_traces(rep, binds, nev, seed, label):
         ad = Adapter(b)
         got = obs[k]
         exp = ad.expected(p["obs"], got["err"], got)
-        d = rp.diff(exp, got, rtol=RTOL)
+        d = compare(exp, got)
         ncmp += 1
         if d:
             t = byid[tid]
@@ -773,6 +810,9 @@ def run(rep, tier, seed):
         "every dimension name along a shape class' MRO is read hot / cold / at each table temperature: constructor dimensions, inherited "
         "aliases (Square.lengthOuter/lengthInner: lengths) and inherited dimensions stored as 0 (read 0); getArea(Tc=t) is compared for "
         "every table temperature t",
+        "auxiliary density vectors: p.detailedNDens / p.pinNDens are given input arrays (or left None) per component in the combination "
+        "the specification's aux says (emission: one combination per kind pair; traces: all 16, random); pinNDens is float32: rtol "
+        "1.2e-7 x (setTemperature calls made on the component + 2)",
         "zero-valued constructor dimensions, DerivedShape / NullComponent / abstract Component classes and 3-D shapes are outside (coverage.inventory)",
     )
 
@@ -797,7 +837,7 @@ def replay(payload):
             print("DIVERGES: %s escaped from the real code" % type(ex).__name__)
             return 1
         exp = payload.get("expected")
-        d = rp.diff(exp, got, rtol=RTOL) if exp else None
+        d = compare(exp, got) if exp else None
         print(json.dumps({"first_difference": d, "observed": got}, indent=1, default=str)[:6000])
         return 1 if d else 0
     print("replay of direction=%s: see payload (TLC trace / recorded trace)" % payload.get("direction"))
@@ -961,7 +1001,21 @@ def selftest():
         ip = self.getDimension("ip", cold=cold)
         return math.sqrt(3.0) / 2.0 * (op ** 2 - ip ** 2) * self.getDimension("mult")
 
+    def other_dens_pin_nested(self, factor):
+        if self.p.detailedNDens is not None:
+            self.p.detailedNDens *= factor
+            if self.p.pinNDens is not None:
+                self.p.pinNDens *= factor
+
+    def other_dens_detailed_twice(self, factor):
+        if self.p.detailedNDens is not None:
+            self.p.detailedNDens *= factor * factor
+        if self.p.pinNDens is not None:
+            self.p.pinNDens *= factor
+
     mutants = [
+        ("round 3 seed 3: pinNDens scaled only when detailedNDens is set", lambda: P(C, "_changeOtherDensParamsByFactor", other_dens_pin_nested)),
+        ("detailedNDens scaled by the factor squared", lambda: P(C, "_changeOtherDensParamsByFactor", other_dens_detailed_twice)),
         ("round 2 seed 3: Square drops the inherited length dims from THERMAL_EXPANSION_DIMS",
          lambda: P(basicShapes.Square, "THERMAL_EXPANSION_DIMS", {"widthOuter", "widthInner"})),
         ("round 2 seed 5: UnshapedComponent.getComponentArea ignores Tc", lambda: P(comps.UnshapedComponent, "getComponentArea", unshaped_area_ignores_tc)),
